@@ -4,6 +4,7 @@ package main
 
 import (
 	"fmt"
+	"go/ast"
 	"go/constant"
 	"go/token"
 	"go/types"
@@ -20,6 +21,7 @@ type TV struct {
 }
 
 type SpecEnv struct {
+	atInstr    ssa.Instruction // call / map-update site of a callassert / mapassert (nil otherwise)
 	x          *FnExec
 	fr         *Frame
 	vars       map[string]TV
@@ -303,6 +305,26 @@ func (ev *SpecEnv) local(name string) (TV, bool) {
 			if a, ok := in.(*ssa.Alloc); ok && a.Comment == name {
 				if pv, ok := fr.vals[a]; ok {
 					return TV{x.load(ev.state(), x.ptrPlace(pv, a.Type())), deref(a.Type())}, true
+				}
+			}
+		}
+	}
+	// at a call / map-update site: the reaching definition of the source variable at that instruction (latest DebugRef
+	// or phi of that name in the block before the instruction, else up the dominator chain) - never a value assigned in a
+	// branch that does not dominate the site
+	if ev.atInstr != nil && ev.loop == nil {
+		if rv := reachingDef(name, ev.atInstr); rv != nil {
+			if _, ok := fr.vals[rv]; ok {
+				return TV{fr.val(rv), rv.Type()}, true
+			}
+			if _, isc := rv.(*ssa.Const); isc {
+				return TV{fr.val(rv), rv.Type()}, true
+			}
+		}
+		for _, p := range fr.fn.Params {
+			if p.Name() == name {
+				if _, ok := fr.vals[p]; ok {
+					return TV{fr.val(p), p.Type()}, true
 				}
 			}
 		}
@@ -1158,3 +1180,36 @@ func (ev *SpecEnv) lex(a, b TV, orEqual bool) *Term {
 }
 
 var _ = constant.MakeBool
+
+// reachingDef: the SSA value bound to source variable `name` at instruction `at`.
+func reachingDef(name string, at ssa.Instruction) ssa.Value {
+	b := at.Block()
+	start := -1
+	for i, in := range b.Instrs {
+		if in == at {
+			start = i - 1
+			break
+		}
+	}
+	for blk := b; blk != nil; {
+		for i := start; i >= 0; i-- {
+			switch in := blk.Instrs[i].(type) {
+			case *ssa.DebugRef:
+				if !in.IsAddr {
+					if id, ok := in.Expr.(*ast.Ident); ok && id.Name == name {
+						return in.X
+					}
+				}
+			case *ssa.Phi:
+				if in.Comment == name {
+					return in
+				}
+			}
+		}
+		blk = blk.Idom()
+		if blk != nil {
+			start = len(blk.Instrs) - 1
+		}
+	}
+	return nil
+}
